@@ -22,7 +22,10 @@ CONFIG = {
             "splitter (19 specs x 3 forms), 27 mutations of every scheme (case, +tls, +tls+tls, +, white space, NBSP, digits, #, ?, /) "
             "x 3 tails x 4 positions, control bytes / fragments / queries, 1500 (quick) or 20000 (thorough) random word compositions; "
             "run=1 takes the constructed object into Startup/Connect/Start (listeners on 127.0.0.1:0, unix sockets in a temp dir, "
-            "pipes for stdio) and reports listener type / first wire bytes / secure flag; non-trivial = parser accepted",
+            "pipes for stdio) and reports listener type / first wire bytes / secure flag; every DNS server scheme x every input form is started "
+            "and what REALLY serves DNS is determined from the socket miekg/dns bound and by a probe from outside (TCP dial + first wire "
+            "bytes, UDP query + reply): udp / tcp / tcp-tls; monitor: the network really listening (socket, packet, DNS servers, "
+            "listeners) = the documented one (dns+udp UDP, dns+tcp TCP) or the one the scheme names lexically; non-trivial = parser accepted",
     "trusted_base": COMMON_TB + ["model SA.Model.Schemes hand-written interpreter of SA/Gen/C18.lean; url.Parse beyond the scheme, JSON/YAML/go-flags bridges third-party (oracle / identity)",
                                  "Spec.documented hand-written from README.md"],
     "assumptions": ["the address string reaches the parser unchanged through json.Marshal/Unmarshal, yaml.Marshal/Unmarshal and go-flags",
